@@ -198,6 +198,6 @@ def export_contract(key):
         'mode': c.mode,
         'raises': [(e, cl.text) for e, cl in c.raises],
         'may_raise': list(c.may_raise), 'modifies': list(c.modifies),
-        'self_cls': c.self_cls, 'float_mode': c.float_mode,
+        'self_cls': c.self_cls, 'float_mode': c.float_mode, 'lets': dict(c.lets),
         'spec_defs': {n: (p, t) for n, (p, _, t) in SPEC_DEFS.items()},
     }
